@@ -85,6 +85,17 @@ def gen(ctx):
             hist.append((table, ["USER alice", "PASS wrong", p]))
             hist.append((table, ["USER bob", "USER alice", p]))
             hist.append((table, ["USER alice", "PASS secret", "USER alice", p]))
+    # a listener left over from a completed login, then USER for another account (no PASS, or a wrong one), then a transfer
+    for table in ("anon", "noanon"):
+        for passive in ("EPSV", "PASV"):
+            for mid in (["USER alice"], ["USER alice", "PASS wrong"], ["USER nobody"], ["USER alice", "PASS"]):
+                for t in ("RETR f.txt", "LIST", "MLSD", "STOR new3.bin", "APPE f.txt", "MLSD d"):
+                    hist.append((table, ["USER bob", passive] + mid + ["@data", t, "PWD"]))
+                    hist.append((table, ["USER bob", passive, "@data"] + mid + [t]))
+    # passwords that differ from the right one only by characters a "sanitising" layer might drop
+    for pw in ("sec\x00ret", "\x00secret", "secret\x00", "secret\x00\x00", "s\x00e\x00c\x00r\x00e\x00t", "secret\x7f", "secret\x08", "\ufeffsecret", "secret\u200b", "se\u00adcret"):
+        for probe in (["MKD zz", "PWD"], ["EPSV", "@data", "RETR f.txt"]):
+            hist.append(("noanon", ["USER alice", "PASS " + pw] + probe))
     for pw in UNI_PASSES:
         for probe in (["MKD zz", "PWD"], ["CWD /", "DELE f.txt"], ["EPSV", "@data", "RETR f.txt"]):
             hist.append(("uni", ["USER zoë", "PASS " + pw] + probe))
